@@ -32,7 +32,7 @@ import (
 )
 
 var simpleCtors = []string{
-	"string", "plainstring", "std", "pipe", "file", "fileonly", "json", "json-std",
+	"string", "plainstring", "std", "pipe", "file", "fileonly", "json", "json-std", "json-multiwriter",
 	"logr-stdr", "logr-stdout", "logr-quiet", "zap", "logrus-text", "logrus-json", "hclog", "hclog-json",
 	"slog-text", "slog-json", "logr-from-loggers", "logr-plain-from-loggers", "hclog-wrapper",
 	"quiet", "quiet-string", "noop", "multiple-default",
@@ -60,6 +60,9 @@ func buildCases(r *vrun.Run, scratch string) []Case {
 		t := total
 		if c.Slow || len(c.Members)+len(c.Appends) > 2 {
 			t = total / 2
+		}
+		if c.PaceEvery == 1 {
+			t = total / 4
 		}
 		c.N = t / c.P
 		c.Procs = []int{2, 4, 4, 8}[rng.IntN(4)]
@@ -96,23 +99,19 @@ func buildCases(r *vrun.Run, scratch string) []Case {
 	}
 	// ring-buffered asynchronous loggers: ring sizes × slow/fast sink, poller and waiter
 	polls := []int{0, 500, 2000, 10000}
-	areps := r.Pick(1, 6)
+	// producer pacing {pause µs, every n messages}: saturating (huge drop batches), nearly keeping up (single drops), keeping up (no drop)
+	paces := [][2]int{{0, 1}, {1000, 1}, {300, 16}, {3000, 1}, {2000, 16}}
+	areps := r.Pick(2, 8)
 	for rep := 0; rep < areps; rep++ {
 		for ri, ring := range ringSizes {
 			for si, slow := range []bool{false, true} {
 				rng := r.Rand("c13-async", (rep*len(ringSizes)+ri)*2+si)
-				pace := 0
-				if ring >= 64 && !slow {
-					pace = []int{0, 300, 2000}[(rep+ri)%3]
-				}
-				add(Case{Ctor: "async", Rep: rep, Ring: ring, Slow: slow, PollUS: polls[rng.IntN(len(polls))], PaceUS: pace, SetSrc: rng.IntN(2) == 0})
+				pc := paces[(rep*3+ri*2+si)%len(paces)]
+				add(Case{Ctor: "async", Rep: rep, Ring: ring, Slow: slow, PollUS: polls[rng.IntN(len(polls))], PaceUS: pc[0], PaceEvery: pc[1], SetSrc: rng.IntN(2) == 0})
 			}
 			rng := r.Rand("c13-jsonslow", rep*len(ringSizes)+ri)
-			pace := 0
-			if ring >= 64 {
-				pace = []int{2000, 0, 300}[(rep+ri)%3]
-			}
-			add(Case{Ctor: "json-slow", Rep: rep, Ring: ring, Slow: (ri+rep)%2 == 0, PollUS: polls[rng.IntN(len(polls))], PaceUS: pace, SetSrc: rng.IntN(2) == 0})
+			pc := paces[(rep*3+ri*2+3)%len(paces)]
+			add(Case{Ctor: "json-slow", Rep: rep, Ring: ring, Slow: (ri+rep)%2 == 0, PollUS: polls[rng.IntN(len(polls))], PaceUS: pc[0], PaceEvery: pc[1], SetSrc: rng.IntN(2) == 0})
 		}
 		add(Case{Ctor: "async-std", Rep: rep, Ring: []int{8, 64, 1024}[rep%3], PollUS: polls[1+rep%3], SetSrc: false})
 	}
@@ -397,8 +396,15 @@ func main() {
 			if res.AsyncDeliv == res.AsyncProduced {
 				r.Obs("async_cases_without_any_drop", 1)
 			}
-			if d := res.AsyncDeliv + res.AsyncReported - res.AsyncProduced; d > 0 {
+			d := res.AsyncDeliv + res.AsyncReported - res.AsyncProduced
+			if d > 0 {
 				r.Obs("async_cases_over_reporting(dont_care)", 1)
+			} else if d == 0 {
+				r.Obs("async_cases_exact_accounting", 1)
+			}
+			if os.Getenv("C13_VERBOSE") != "" {
+				fmt.Printf("async %-9s ring=%-4d slow=%-5v poll=%-5d pace=%-4d/%-2d P=%-2d produced=%d delivered=%d reported=%d (in %d reports) slack=%d workload=%dms\n",
+					c.Ctor, c.Ring, c.Slow, c.PollUS, c.PaceUS, c.PaceEvery, c.P, res.AsyncProduced, res.AsyncDeliv, res.AsyncReported, res.AsyncReports, d, res.WorkloadMS)
 			}
 		}
 		for _, n := range res.Notes {
